@@ -25,31 +25,92 @@ def _scaled(v, scale):
     return "None" if v is None else fixed(v, scale)
 
 
+class _Unknown:
+    pass
+
+
+UNKNOWN = _Unknown()
+
+
+def _attr(d, private, public=None):
+    """a state attribute of the device object: by its usual private name, else through the public property; UNKNOWN if
+    neither exists (the field is then left out of the comparison - a renamed private attribute is not an alarm)"""
+    if hasattr(d, private):
+        return getattr(d, private)
+    if public is not None and hasattr(type(d), public):
+        try:
+            return getattr(d, public)
+        except Exception:  # noqa
+            return UNKNOWN
+    return UNKNOWN
+
+
+def _f(v, f):
+    return "?" if v is UNKNOWN else f(v)
+
+
+def _breeze(d):
+    v = _attr(d, "_breeze_mode")
+    if v is not UNKNOWN:
+        return int(v)
+    try:
+        return 2 if d.breeze_away else 3 if d.breeze_mild else 4 if d.breezeless else 1
+    except Exception:  # noqa
+        return UNKNOWN
+
+
 def canon_dev(d):
     """mirror of Driver/Dev.lean showDev"""
-    temp = d._target_temperature
+    A = lambda priv, pub=None: _attr(d, priv, pub)   # noqa: E731
     return (
-        f"beep={b01(d._beep_on)} power={b01(d._power_state)} temp={fixed(temp, 100)} mode={int(d._operational_mode)} "
-        f"fan={int(d._fan_speed)} swing={int(d._swing_mode)} "
-        f"eco={b01(d._eco)} turbo={b01(d._turbo)} freeze={_opt(d._freeze_protection, b01)} sleep={b01(d._sleep)} "
-        f"f={b01(d._fahrenheit_unit)} "
-        f"display={b01(d._display_on)} filter={b01(d._filter_alert)} follow={b01(d._follow_me)} pur={b01(d._purifier)} "
-        f"hum={_opt(d._target_humidity)} indoor={tenths(d._indoor_temperature)} outdoor={tenths(d._outdoor_temperature)} "
-        f"ihum={_opt(d._indoor_humidity)} "
-        f"opmodes={_ints(d._supported_op_modes)} swings={_ints(d._supported_swing_modes)} fans={_ints(d._supported_fan_speeds)} "
-        f"cfan={b01(d._supports_custom_fan_speed)} seco={b01(d._supports_eco)} sturbo={b01(d._supports_turbo)} "
-        f"sfreeze={b01(d._supports_freeze_protection)} "
-        f"sdisplay={b01(d._supports_display_control)} sfilter={b01(d._supports_filter_reminder)} "
-        f"spur={b01(d._supports_purifier)} shum={b01(d._supports_humidity)} "
-        f"sthum={b01(d._supports_target_humidity)} tmin={fixed(d._min_target_temperature, 2)} "
-        f"tmax={fixed(d._max_target_temperature, 2)} reqe={b01(d._request_energy_usage)} "
-        f"bin={b01(d._use_binary_energy)} te={_scaled(d._total_energy_usage, 100)} ce={_scaled(d._current_energy_usage, 100)} "
-        f"rp={_scaled(d._real_time_power_usage, 10)} sprops={_ints(d._supported_properties)} "
-        f"uprops={_ints(d._updated_properties)} "
-        f"hangle={int(d._horizontal_swing_angle)} vangle={int(d._vertical_swing_angle)} clean={b01(d._self_clean_active)} "
-        f"rate={int(d._rate_select)} "
-        f"rates={_ints(d._supported_rate_selects)} breeze={int(d._breeze_mode)} ieco={b01(d._ieco)} auxmode={int(d._aux_mode)} "
-        f"auxmodes={_ints(d._supported_aux_modes)} online={b01(d._online)} supported={b01(d._supported)}")
+        f"beep={_f(A('_beep_on', 'beep'), b01)} power={_f(A('_power_state', 'power_state'), b01)} "
+        f"temp={_f(A('_target_temperature', 'target_temperature'), lambda v: fixed(v, 100))} "
+        f"mode={_f(A('_operational_mode', 'operational_mode'), int)} "
+        f"fan={_f(A('_fan_speed', 'fan_speed'), int)} swing={_f(A('_swing_mode', 'swing_mode'), int)} "
+        f"eco={_f(A('_eco', 'eco'), b01)} turbo={_f(A('_turbo', 'turbo'), b01)} "
+        f"freeze={_f(A('_freeze_protection', 'freeze_protection'), lambda v: _opt(v, b01))} sleep={_f(A('_sleep', 'sleep'), b01)} "
+        f"f={_f(A('_fahrenheit_unit', 'fahrenheit'), b01)} "
+        f"display={_f(A('_display_on', 'display_on'), b01)} filter={_f(A('_filter_alert', 'filter_alert'), b01)} "
+        f"follow={_f(A('_follow_me', 'follow_me'), b01)} pur={_f(A('_purifier', 'purifier'), b01)} "
+        f"hum={_f(A('_target_humidity', 'target_humidity'), _opt)} indoor={_f(A('_indoor_temperature', 'indoor_temperature'), tenths)} "
+        f"outdoor={_f(A('_outdoor_temperature', 'outdoor_temperature'), tenths)} "
+        f"ihum={_f(A('_indoor_humidity', 'indoor_humidity'), _opt)} "
+        f"opmodes={_f(A('_supported_op_modes', 'supported_operation_modes'), _ints)} "
+        f"swings={_f(A('_supported_swing_modes', 'supported_swing_modes'), _ints)} "
+        f"fans={_f(A('_supported_fan_speeds', 'supported_fan_speeds'), _ints)} "
+        f"cfan={_f(A('_supports_custom_fan_speed', 'supports_custom_fan_speed'), b01)} seco={_f(A('_supports_eco', 'supports_eco'), b01)} "
+        f"sturbo={_f(A('_supports_turbo', 'supports_turbo'), b01)} "
+        f"sfreeze={_f(A('_supports_freeze_protection', 'supports_freeze_protection'), b01)} "
+        f"sdisplay={_f(A('_supports_display_control', 'supports_display_control'), b01)} "
+        f"sfilter={_f(A('_supports_filter_reminder', 'supports_filter_reminder'), b01)} "
+        f"spur={_f(A('_supports_purifier', 'supports_purifier'), b01)} shum={_f(A('_supports_humidity', 'supports_humidity'), b01)} "
+        f"sthum={_f(A('_supports_target_humidity', 'supports_target_humidity'), b01)} "
+        f"tmin={_f(A('_min_target_temperature', 'min_target_temperature'), lambda v: fixed(v, 2))} "
+        f"tmax={_f(A('_max_target_temperature', 'max_target_temperature'), lambda v: fixed(v, 2))} "
+        f"reqe={_f(A('_request_energy_usage', 'enable_energy_usage_requests'), b01)} "
+        f"bin={_f(A('_use_binary_energy', 'use_alternate_energy_format'), b01)} "
+        f"te={_f(A('_total_energy_usage', 'total_energy_usage'), lambda v: _scaled(v, 100))} "
+        f"ce={_f(A('_current_energy_usage', 'current_energy_usage'), lambda v: _scaled(v, 100))} "
+        f"rp={_f(A('_real_time_power_usage', 'real_time_power_usage'), lambda v: _scaled(v, 10))} "
+        f"sprops={_f(A('_supported_properties'), _ints)} "
+        f"uprops={_f(A('_updated_properties'), _ints)} "
+        f"hangle={_f(A('_horizontal_swing_angle', 'horizontal_swing_angle'), int)} "
+        f"vangle={_f(A('_vertical_swing_angle', 'vertical_swing_angle'), int)} clean={_f(A('_self_clean_active', 'self_clean_active'), b01)} "
+        f"rate={_f(A('_rate_select', 'rate_select'), int)} "
+        f"rates={_f(A('_supported_rate_selects', 'supported_rate_selects'), _ints)} breeze={_f(_breeze(d), int)} "
+        f"ieco={_f(A('_ieco', 'ieco'), b01)} auxmode={_f(A('_aux_mode', 'aux_mode'), int)} "
+        f"auxmodes={_f(A('_supported_aux_modes', 'supported_aux_modes'), _ints)} online={_f(A('_online', 'online'), b01)} "
+        f"supported={_f(A('_supported', 'supported'), b01)}")
+
+
+def mask_unknown(impl, model):
+    """fields the implementation side could not observe ('?') are removed from both canonical records"""
+    if "?" not in impl:
+        return impl, model
+    ki = [kv.split("=", 1) for kv in impl.split(" ")]
+    unknown = {k for k, v in ki if v == "?"}
+    strip = lambda s: " ".join(kv for kv in s.split(" ") if kv.split("=", 1)[0] not in unknown)   # noqa: E731
+    return strip(impl), strip(model)
 
 
 CFG_ATTR = {
@@ -192,8 +253,11 @@ def compare(ctx, stream, cfg, counter, ops, responder=None):
         mst, mfailed, mstate, msent = parse_model(ctx.driver.ask(line))
         isent = [canon_cmd_frame(f) for f in sent]
         msent_c = [canon_cmd_frame(bytes.fromhex(h)) if not h.startswith("err") else h for h in msent]
+        state_c, mstate_c = mask_unknown(state, mstate)
+        if state_c != state:
+            ctx.count("device-attributes-not-observable")
         if st == "ok":
-            same = (mst == "ok" and mstate == state and isent == msent_c)
+            same = (mst == "ok" and mstate_c == state_c and isent == msent_c)
         else:
             same = (mst == st and mfailed == failed)
         if not same:
